@@ -173,7 +173,7 @@ def canary(run, family, module, events_path, env=None):
 def family_random(run, family, module, n, label="random", shards=64, timeout=3600, env=None, extra=()):
     ev = record(run, family, n, label=label, extra=extra)
     judge_events(run, family, module, ev, label, shards=shards, timeout=timeout, env=env)
-    if not run.mismatches and not run.known:
+    if not run.mismatches:
         canary(run, family, module, ev, env=env)
 
 
